@@ -20,7 +20,7 @@ import (
 	"verif/vk"
 )
 
-const c19Rule = "(a) all nine shipped specification files in full, every message + header + trailer compared; (b) rapid-generated specifications: 3-25 fields with types and enums, components nested up to 4 deep (optional/required at every level, components inside groups and groups inside components), optionally one dangling field or component reference; non-trivial = a definition containing a component nested in a component or a group; distinct = distinct (file, message) for (a), distinct generated XML for (b)"
+const c19Rule = "(a) all nine shipped specification files in full, every message + header + trailer compared; (b) rapid-generated specifications: 3-25 fields with types and enums, components nested up to 4 deep (optional/required at every level, components inside groups and groups inside components), optionally one dangling field or component reference (in a message, a component, a group, the header or the trailer); non-trivial = a definition containing a component nested in a component or a group; distinct = distinct (file, message) for (a), distinct generated XML for (b)"
 
 func c19() *stats.Collector {
 	c := stats.Get("C19")
@@ -261,6 +261,7 @@ type genSpec struct {
 	header     []*specxml.Node
 	trailer    []*specxml.Node
 	dangling   string // "", "field", "component"
+	danglingIn string // "header" / "trailer" when the dangling reference sits there
 	nestedComp bool
 }
 
@@ -374,9 +375,16 @@ func genSpecification(t *rapid.T) *genSpec {
 		kind := g.dangling
 		n := &specxml.Node{Kind: kind, Name: "Nowhere", Required: rapid.Bool().Draw(t, "dreq")}
 		// place the dangling reference in a message, in a component used by a message, or inside a group
-		target := rapid.IntRange(0, 2).Draw(t, "dplace")
+		target := rapid.IntRange(0, 4).Draw(t, "dplace")
 		m := g.messages[rapid.IntRange(0, len(g.messages)-1).Draw(t, "dmsg")]
 		switch {
+		case target == 3:
+			// in the header (everything else in the file, trailer included, is sound)
+			g.header = append(g.header, n)
+			g.danglingIn = "header"
+		case target == 4:
+			g.trailer = append(g.trailer, n)
+			g.danglingIn = "trailer"
 		case target == 1 && len(g.comps) > 0:
 			cn := g.comps[rapid.IntRange(0, len(g.comps)-1).Draw(t, "dcomp")]
 			g.compBody[cn] = append(g.compBody[cn], n)
@@ -519,6 +527,9 @@ func c19Property(t *rapid.T) {
 	}
 	if g.dangling != "" {
 		c.Class("generated:dangling-" + g.dangling)
+		if g.danglingIn != "" {
+			c.Class("generated:dangling-in-" + g.danglingIn)
+		}
 		c.NonTrivial(stats.Hash(text))
 		if derr == nil {
 			vk.Violation(t, c, "C19/generated/dangling-"+g.dangling+"-accepted", "a reference to an undefined %s was accepted:\n%s", g.dangling, text)
